@@ -72,6 +72,13 @@ def run(ctx):
     rule_d(ctx, cr)
     rule_e(ctx, cr)
     rule_f(ctx, cr)
+    ctx.rule("C02.h", "built-in function table: every row NAME -> (Opcode, arity) of "
+             "Function::opcode_and_arity names the opcode whose VM arm calls Function::<name> "
+             "(name lower-cased, `$` dropped), and the arity equals what that arm takes from the "
+             "stack (pop_1_push: 1, pop_2_push: 2, no pop: 0, pop_vec: the documented optional "
+             "range); names and opcodes are unique")
+    function_table(ctx, cr, "C02.h", lambda name: True)
+    call_emission(ctx, cr, "C02.h")
     ctx.rule("C02.g", "conversion to Integer (assignment to a % variable, \\, MOD, logical "
              "operators, CINT, subscripts) floors and range-tests a Single in f32 and a Double in "
              "f64: no narrowing float conversion feeds the float->i16 cast (see C08.e)")
@@ -486,3 +493,114 @@ def rule_f(ctx, cr):
               len(callers) == 4, "C02.f", "update_val/callers", "",
               "update_val is only reachable through the four insert_* functions",
               "update_val is called from %s: a value can reach the variable map untyped" % callers)
+
+
+VEC_ARITY = {"INSTR": (2, 3), "MID$": (2, 3), "POS": (0, 1), "RND": (0, 1)}
+
+
+def function_rows(cr):
+    f = cr.need_fn("mach::function::Function::opcode_and_arity")
+    rows = []
+    for b, i, st in f.aggregates("mach::opcode::Opcode"):
+        name = None
+        for c in f.conds_at(b):
+            m = re.search(r"PartialEq for str>::eq\(arg:func_name,const:'([^']*)'\)", str(c[1])) \
+                if c[0] == "eq" and c[2] is True else None
+            if m:
+                name = m.group(1)
+        rng = None
+        for c in f.calls_matching(r"RangeInclusive::<Idx>::new$"):
+            if c.bb == b or f.dominates(b, c.bb) and f.variants_at(c.bb, "_0") is None and \
+                    len([x for x in f.reachable() if f.dominates(b, x)]) < 6:
+                lo, hi = f.const_of_operand(c.args[0]), f.const_of_operand(c.args[1])
+                if isinstance(lo, int) and isinstance(hi, int) and rng is None:
+                    rng = (lo, hi)
+        rows.append((name, st["rv"]["variant"], rng, st["span"]))
+    return f, rows
+
+
+def function_table(ctx, cr, rid, want):
+    from rules import c01
+    f, rows = function_rows(cr)
+    ctx.touch(f)
+    _lp, now = c01.dispatch_now(cr)
+    ctx.floor(rid, "rows of the built-in function table", len(rows), 33)
+    names = [r[0] for r in rows]
+    ops = [r[1] for r in rows]
+    ctx.check(len(set(names)) == len(names) and len(set(ops)) == len(ops) and None not in names,
+              rid, "functions/unique", f.span, "%d distinct names, %d distinct opcodes"
+              % (len(set(names)), len(set(ops))),
+              "the function table has duplicate or unreadable rows: %s"
+              % sorted(n for n in names if names.count(n) > 1 or n is None))
+    for name, op, rng, span in rows:
+        if name is None or not want(name):
+            continue
+        arm = now.get(op, [])
+        h = [re.search(r"function::Function::(\w+)", a) for a in arm]
+        h = [m.group(1) for m in h if m]
+        expect = name.rstrip("$").lower()
+        if op == "Inkey":
+            ok_h = not arm          # handled inline: state change + Event::Inkey
+        else:
+            ok_h = h == [expect]
+        ctx.check(ok_h, rid, "functions/%s/handler" % name, span,
+                  "%s -> Opcode::%s -> Function::%s" % (name, op, expect),
+                  "%s compiles to Opcode::%s, whose arm runs %s (expected Function::%s): the "
+                  "name calls another function" % (name, op, h or arm, expect))
+        if any("pop_1_push" in a for a in arm):
+            ar = (1, 1)
+        elif any("pop_2_push" in a for a in arm):
+            ar = (2, 2)
+        elif any("pop_vec" in a for a in arm):
+            ar = VEC_ARITY.get(name)
+        elif any(a.endswith("Stack<T>::pop") for a in arm):
+            ar = (1, 1)
+        else:
+            ar = (0, 0)
+        ctx.check(rng == ar, rid, "functions/%s/arity" % name, span,
+                  "takes %s..=%s arguments" % (ar or ("?", "?")),
+                  "%s is declared with %s arguments but its VM arm takes %s from the stack: a "
+                  "call with the declared count under- or over-pops the value stack" % (name, rng, ar))
+
+
+def call_emission(ctx, cr, rid):
+    """VarItem::push_as_expression: what a name followed by (args) compiles to"""
+    f = cr.need_fn("mach::codegen::VarItem::push_as_expression")
+    ctx.touch(f)
+    pushes = []
+    for c in f.calls_to("mach::link::Link::push"):
+        sv = f.stored_variant(f.value_of_operand(c.args[1]))
+        eqs = [(str(cc[1]), cc[2]) for cc in f.conds_at(c.bb) if cc[0] == "eq"]
+        pushes.append((c, sv[1] if sv else "builtin-opcode", eqs))
+
+    def under(eqs, needle, val):
+        return any(needle in t and v is val for t, v in eqs)
+    builtin = [p for p in pushes if p[1] == "builtin-opcode"]
+    ok_b = len(builtin) == 2 and any(under(e, "RangeInclusive::<Idx>::contains(", True)
+                                     for _c, _k, e in builtin)
+    ctx.check(ok_b, rid, "call/builtin-arity-checked", f.span,
+              "a built-in's opcode is emitted only when the argument count is inside its arity",
+              "a built-in function's opcode is emitted without the `arity.contains(&len)` test: a "
+              "call with the wrong number of arguments compiles and under- or over-pops the stack")
+    codes = {c for _b, c, _s in f.error_codes()}
+    ctx.check("IllegalFunctionCall" in codes, rid, "call/wrong-count-error", f.span,
+              "a wrong argument count for a built-in is ILLEGAL FUNCTION CALL at compile time")
+    lit = [p for p in pushes if p[1] == "Literal"]
+    var_lit = [p for p in lit if under(p[2], "RangeInclusive::<Idx>::start(", True)
+               and under(p[2], "::ne(", True)]
+    ctx.check(len(var_lit) == 1, rid, "call/count-literal-iff-variable-arity", f.span,
+              "the argument count is pushed for a built-in exactly when its arity is a range "
+              "(those arms take their arguments with pop_vec)",
+              "the count literal for built-ins is no longer tied to `arity.start() != "
+              "arity.end()`: pop_vec arms would read an argument as the count, or fixed-arity "
+              "arms would leave a count on the stack")
+    fn = [p for p in pushes if p[1] == "Fn"]
+    arr = [p for p in pushes if p[1] == "PushArr"]
+    okf = len(fn) == 1 and under(fn[0][2], "starts_with(", True) and "const:'FN'" in str(fn[0][2]) \
+        and len(arr) == 1 and under(arr[0][2], "starts_with(", False)
+    ctx.check(okf, rid, "call/fn-vs-array", f.span,
+              "NAME(args) is a user function call iff NAME starts with FN, otherwise an array read",
+              "the FN prefix no longer separates user function calls from array reads")
+    ctx.check(sum(1 for p in lit if under(p[2], "starts_with(", True)
+                  or under(p[2], "starts_with(", False)) == 2, rid, "call/count-before-fn-and-array",
+              f.span, "both Fn and PushArr are preceded by the argument/subscript count")
